@@ -57,7 +57,8 @@ THEOREMS = ['C16_split_flags_star', 'C16_split_flags_plus',
             'C16_merge_entries_gen',
             'C16_bc_designates_present_same_locus_linked',
             'C16_bc_entries_designate_written_linked',
-            'C16_conflicting_flags_rejected_linked']
+            'C16_conflicting_flags_rejected_linked',
+            'C16_bc_designates_present_same_locus_cells_linked']
 TRUSTED = [
     'hand-written model coq/C16/Model.v (modelled, tied by execution only)',
     'surfaces are abstract in the model: a descriptor class stands for '
